@@ -129,6 +129,10 @@ class Translator:
                     return sp.conjugate(self.tr(t[2][0]))
                 if f == ".copy" and len(t[2]) == 1:
                     return self.tr(t[2][0])
+                if f == "numpy.where" and len(t[2]) == 3 and not t[3]:
+                    c = self.rel(t[2][0])
+                    if c is not None:
+                        return sp.Piecewise((self.tr(t[2][1]), c), (self.tr(t[2][2]), True))
                 if f == "numpy.multiply" and len(t[2]) == 2:
                     return self.tr(t[2][0]) * self.tr(t[2][1])
                 if f == "numpy.divide" and len(t[2]) == 2:
@@ -146,6 +150,25 @@ class Translator:
         if k == "attr" and t[2] == "imag":
             return sp.im(self.tr(t[1]))
         return self.mk_atom(t)
+
+
+def _rel(self, c: Term):
+    """boolean term -> sympy relational (None when not expressible)."""
+    if c[0] == "cmp" and c[1] in ("<", "<=", ">", ">="):
+        a, b = self.tr(c[2]), self.tr(c[3])
+        return {"<": sp.Lt, "<=": sp.Le, ">": sp.Gt, ">=": sp.Ge}[c[1]](a, b)
+    if c[0] == "bin" and c[1] in ("&", "|"):
+        a, b = self.rel(c[2]), self.rel(c[3])
+        if a is None or b is None:
+            return None
+        return sp.And(a, b) if c[1] == "&" else sp.Or(a, b)
+    if c[0] == "un" and c[1] in ("~", "not"):
+        a = self.rel(c[2])
+        return None if a is None else sp.Not(a)
+    return None
+
+
+Translator.rel = _rel
 
 
 def to_sympy(t: Term, atom_of: Optional[Callable[[Term], Optional[sp.Expr]]] = None, positive: bool = False) -> sp.Expr:
